@@ -93,6 +93,8 @@ impl Debt {
         R: Fn() -> T,
     {
         LocalNode::with(|local| {
+            // We may need our own node for helping others during the whole walk.
+            let _own_reservation = local.reserve_own_node();
             let val = unsafe { T::from_ptr(ptr) };
             // Pre-pay one ref count that can be safely put into a debt slot to pay it.
             T::inc(&val);
